@@ -303,7 +303,7 @@ pub fn judge_responses(frames: &[SFrame], limit: u32, out: &[u8], closed: bool, 
                     }
                     ri += 1;
                 } else if !quiet {
-                    v.push((vec!["C12"], format!("frame {}: loud request opcode {:#x} opaque {:#x} has no response at its place in the response stream (next response: {:?})", fi, f.opcode, f.opaque, next.map(|r| (r.opcode, r.opaque)))));
+                    v.push((vec!["C12", "C18"], format!("frame {}: loud request opcode {:#x} opaque {:#x} has no response at its place in the response stream (next response: {:?})", fi, f.opcode, f.opaque, next.map(|r| (r.opcode, r.opaque)))));
                     return v;
                 }
             }
@@ -311,7 +311,7 @@ pub fn judge_responses(frames: &[SFrame], limit: u32, out: &[u8], closed: bool, 
                 if matches {
                     ri += 1;
                 } else {
-                    v.push((vec!["C12"], format!("frame {}: request with unimplemented opcode {:#x} was not answered in order", fi, f.opcode)));
+                    v.push((vec!["C12", "C18"], format!("frame {}: request with unimplemented opcode {:#x} was not answered in order", fi, f.opcode)));
                     return v;
                 }
             }
@@ -323,7 +323,7 @@ pub fn judge_responses(frames: &[SFrame], limit: u32, out: &[u8], closed: bool, 
                     }
                     ri += 1;
                 } else {
-                    v.push((vec!["C13", "C12"], format!("frame {}: request with a body above the item limit {} was not answered with 'too large' at its place (next response: {:?})", fi, limit, next.map(|r| (r.opcode, r.opaque, r.status)))));
+                    v.push((vec!["C13", "C12", "C18"], format!("frame {}: request with a body above the item limit {} was not answered with 'too large' at its place (next response: {:?})", fi, limit, next.map(|r| (r.opcode, r.opaque, r.status)))));
                     return v;
                 }
             }
